@@ -156,12 +156,35 @@ func runC12(c *Ctx) {
 			continue
 		}
 		finfo := fi.Pkg.TypesInfo
+		// a helper expanded into the reconcile function (e.g. a constructor of the initial status) is judged
+		// like the reconcile function itself, its parameters related to the caller's values by the engine
+		inReconcile := false
+		for _, h := range r.Fn.Expanded() {
+			if h == fi && c.liftedAway(fi) {
+				inReconcile = true
+			}
+		}
 		for _, fs := range fieldStores(finfo, fi.Decl.Body) {
 			if !isNamed(fs.Owner, load.APIPkg, "StatefulSetStatus") {
 				continue
 			}
 			as := fs.Node
 			lhsText := types.ExprString(fs.Base) + "." + fs.Field
+			if inReconcile && (fs.Field == "ObservedGeneration" || fs.Field == "CurrentRevision") {
+				name := fmt.Sprintf("%s: %s = %s", fi.Obj.Name(), lhsText, types.ExprString(fs.Rhs))
+				var want *gf.Term
+				rule := "C12.3-observed-generation-source"
+				if fs.Field == "ObservedGeneration" {
+					nGen++
+					want = c.WantTerm(r.Fn, r.FI.Decl.Body.Lbrace+1, "$1.Generation", r.Set)
+				} else {
+					nCur++
+					rule = "C12.3-current-revision-source"
+					want = c.WantTerm(r.Fn, r.FI.Decl.Body.Lbrace+1, "$1.Name", r.CurRev)
+				}
+				c.Implies(r.An.StateBefore(as), gf.FEq(r.Fn.Term(fs.Rhs), want), rule, name, as.Pos())
+				continue
+			}
 			switch fs.Field {
 			case "ObservedGeneration":
 				nGen++
